@@ -498,6 +498,29 @@ def eval_effect_sphinx(ctx, case):
             out.append((doc.pformat().replace(b.src, "SRC"), sorted(re.sub(r"^[^ ]* WARNING: ", "", re.sub(r"\x1b\[[0-9;]*m", "", l)) for l in b.norm_warnings().splitlines() if l.strip())))
         finally:
             b.close()
+    # a page WITHOUT any front matter is parsed with the project's configuration object itself: the build must leave that object as conf.py made it
+    if case["effect"] % 2 == 0:
+        from myst_parser.config.main import MdParserConfig
+
+        kw3 = {**base, "enable_extensions": sorted(set(base.get("enable_extensions", [])) | {"html_image", "html_admonition", "deflist"})}
+        b = drive.SphinxBuild({"index.md": "# Index\n" + body, "zlater.md": "---\norphan: true\n---\n# Later\n\n<img src=\"later.png\" alt=\"read after index\">\n"}, conf={"myst_" + k: v for k, v in kw3.items()}, builder="dummy")
+        try:
+            try:
+                b.build()
+                want = repr(sorted((k, repr(v)) for k, v in MdParserConfig(**kw3).as_dict().items()))
+                have = repr(sorted((k, repr(v)) for k, v in b.app.env.myst_config.as_dict().items()))
+                ctx.count("sphinx_shared_config_snapshots")
+                if want != have:
+                    ctx.violation("snapshot:sphinx-global-config-changed-by-build", "env.myst_config after building a page without front matter (figure-md, html_image enabled for the project) differs from the conf.py values", case,
+                                  {"expected": want[:800], "after": have[:800]})
+                from docutils import nodes as _n
+
+                if not list(b.doctree("zlater").findall(_n.image)):
+                    ctx.violation("snapshot:sphinx-later-document-sees-file-level-state", "html_image is enabled for the project, but the <img> of a page read after a figure-md page was not converted", case, None)
+            except Exception as e:  # noqa: BLE001
+                ctx.count("no_document:sphinx:" + type(e).__name__)
+        finally:
+            b.close()
     ctx.count("sphinx_effect_pairs_compared")
     if name not in ("enable_extensions",) and len(out_later) == 2 and ("<raw" in out_later[0]) != ("<raw" in out_later[1]) and "html_image" not in str(base.get("enable_extensions", "")):
         ctx.violation("snapshot:sphinx-later-document-sees-file-level-state", f"[sphinx] a document read after index.md is rendered differently depending on whether {name} was set in index.md's front matter or in conf.py", case,
